@@ -15,7 +15,7 @@ TRAIN = {"MaxN": 4, "MaxB": 3, "MaxE": 2, "MaxWorkers": 2, "MaxTol": 3, "NVals":
 M = [
  ("reduce_in_completion_order", "Training.tla",
   "  /\\ LET s == First(P, bi) + red IN",
-  "  /\\ LET s == finished[red + 1] IN",
+  "  /\\ LET s == IF red < Len(finished) THEN finished[red + 1] ELSE 0 IN",
   "MC_Training", dict(TRAIN, Mode="schedule"), "ReduceIgnoresSchedule|DescentOK|PrefixOK"),
  ("step_number_is_batch_index", "Training.tla",
   "  /\\ w' = Append(w, [step |-> epoch, grads |-> accG])",
